@@ -696,9 +696,12 @@ def r14b(P, R):
             continue
         sig = naming(C.expand(C.trace(pv, ident[3]["args"][0])))
         fsigs[side] = sig
-        extra = {s for s in sig if s not in need_fr and s != ("nitrogql_ast::base::Ident", "name") and (s[0] == "call" or s[0] != BASEOPT)}
+        # what one side adds on its own: an option of that side's own options struct, another part of the fragment.  A transformation
+        # or a further *shared* base option (e.g. a capitalisation switch) is a feature of the naming when both sides have it, which
+        # frag-const-agree compares.
+        extra = {s for s in sig if s[0] != "call" and s not in need_fr and s != ("nitrogql_ast::base::Ident", "name") and s[0] != BASEOPT}
         R.check("R14-b", "frag-const-name:" + side, need_fr <= sig and not extra, "fragment constant = fragment name + fragment_variable_suffix",
-                "%s side names the fragment constant from %s (expected fragment name + fragment_variable_suffix, no other transformation): %s"
+                "%s side names the fragment constant from %s (expected fragment name + fragment_variable_suffix, nothing of this side's own): %s"
                 % (side, _show(sig), ("it lacks %s" % _show(need_fr - sig)) if need_fr - sig else ("it also depends on %s" % _show(extra))), loc=f.loc())
         g = export_guard(side, "frag", f, pv, exp, set(), ctx[methods[1]])
         if g:
